@@ -14,6 +14,7 @@ import time as _real_time
 import types
 
 EPOCH = 1_600_000_000.0
+EPS = 2.5e-6     # > VirtualLoop.tick: successive deliveries on one connection land in different loop iterations
 
 
 class Deadlock(Exception):
@@ -336,7 +337,9 @@ class ServerConn:
     def _client_wrote(self, data):
         if self.closed:
             return
-        t = max(self._c2s_t, self.loop._vtime + self.net.latency())
+        # strictly increasing delivery instants: a real loop never hands two socket events of
+        # one connection to the protocol before tasks woken by the first had a chance to run
+        t = max(self._c2s_t + EPS, self.loop._vtime + self.net.latency())
         self._c2s_t = t
         self._c2s_q.append((data, self.loop._vtime))
         self.loop.call_at(t, self._arrive)
@@ -381,11 +384,11 @@ class ServerConn:
         if self.closed:
             return
         d = self.net.latency() if delay is None else delay
-        t = max(self._s2c_t, self.loop._vtime + d)
+        t = max(self._s2c_t + EPS, self.loop._vtime + d)
         pieces = self.net.split(data) if chunks is None else _split(data, chunks)
         for i, p in enumerate(pieces):
             if i:
-                t += self.net.chunk_gap()
+                t += max(EPS, self.net.chunk_gap())
             self._s2c_q.append(("data", p))
             self.loop.call_at(t, self._deliver)
         self._s2c_t = t
@@ -406,7 +409,7 @@ class ServerConn:
         """Server closes the connection (EOF, or RST when reset)."""
         if self.closed:
             return
-        t = max(self._s2c_t, self.loop._vtime + delay)
+        t = max(self._s2c_t + EPS, self.loop._vtime + delay)
         self._s2c_t = t
         self._s2c_q.append(("close", reset))
         self.loop.call_at(t, self._deliver)
